@@ -4,51 +4,18 @@ import AL.Spec.Untrusted
   semantic checker:
   * the shape of `(check Γ e).evs` for every constructor (`evs_*`),
   * `finish` (= Go `end()`) in closed form,
-  * under `safeCalls > 0` every event stream of an expression is the identity (`silent_check`),
-    hence a contains/startsWith/endsWith call is *transparent*: it returns the machine to exactly
-    the state it was entered in (`transp_safe`) — note: WITHOUT calling `end()`;
-  * the syntactic side condition `ok` under which machine and chain specification agree.
+  * under `safeCalls > 0` every event stream of an expression is the identity (`silent_all`),
+    hence a contains/startsWith/endsWith call entered outside any safe call acts exactly like
+    `end()` (`safe_finish`): nothing inside it is seen, and leaving it ends the chain that was
+    pending before it (the repaired behaviour; before the repair the pending cursor survived).
 -/
 namespace AL.Insecure
 open AL AL.Sema AL.Spec
-
-/-! ### the side condition of `machine_eq_spec'` -/
 
 /-- `e` is a call of contains / startsWith / endsWith -/
 def isSafeE (lower : String → String) : E → Bool
   | .call c _ => isSafeCall lower c
   | _ => false
-
-/-- the access path `e` is rooted at something that is neither a variable nor a safe call: after its
-events the machine has no cursor alive. -/
-def clean (lower : String → String) : E → Bool
-  | .var _ => false
-  | .objDeref r _ => clean lower r
-  | .arrDeref r => clean lower r
-  | .index r _ => clean lower r
-  | .call c _ => !isSafeCall lower c
-  | _ => true
-
-mutual
-/-- No access segment is applied *directly* to a contains/startsWith/endsWith call:
-`contains(…).p`, `contains(…).*` are excluded, and `contains(…)[i]` is excluded unless `i` is a string
-literal or `clean`. Only visited sub-expressions are constrained (not the arguments of safe calls or of
-undefined functions). -/
-def ok (lower : String → String) (defined : String → Bool) : E → Bool
-  | .call c args =>
-    if isSafeCall lower c then true else if !defined (lower c) then true else okList lower defined args
-  | .not e => ok lower defined e
-  | .cmp _ l r => ok lower defined l && ok lower defined r
-  | .logical _ l r => ok lower defined l && ok lower defined r
-  | .objDeref r _ => !isSafeE lower r && ok lower defined r
-  | .arrDeref r => !isSafeE lower r && ok lower defined r
-  | .index r (.str _) => ok lower defined r
-  | .index r i => ok lower defined i && ok lower defined r && (!isSafeE lower r || clean lower i)
-  | _ => true
-def okList (lower : String → String) (defined : String → Bool) : List E → Bool
-  | [] => true
-  | e :: es => ok lower defined e && okList lower defined es
-end
 
 /-! ### running the machine -/
 
@@ -180,14 +147,25 @@ theorem step_silent (roots : List Trie) (st : State) (k : LeaveKind) (h : 0 < st
     st.step roots (.leave k) = st := by
   cases k <;> simp_all [State.step]
 
-/-- enter, a silent body, leave: back to the very same state (no `end()`!) -/
+/-- a nested safe call (entered under `safeCalls > 0`): enter, a silent body, leave — back to the very
+same state -/
 theorem exec_safe_bracket (roots : List Trie) (body : List Ev)
-    (hb : ∀ st : State, 0 < st.safeCalls → exec roots st body = st) (st : State) :
+    (hb : ∀ st : State, 0 < st.safeCalls → exec roots st body = st) (st : State) (h : 0 < st.safeCalls) :
     exec roots st ([.enterSafeCall] ++ body ++ [.leave .safeCall]) = st := by
   rw [exec_append, exec_append]
   simp only [exec_cons, exec_nil]
   rw [hb _ (by simp [State.step])]
-  simp [State.step]
+  have : st.safeCalls ≠ 0 := by omega
+  simp [State.step, this]
+
+/-- an outermost safe call: enter, a silent body, leave — the net effect is `end()` -/
+theorem exec_safe_top (roots : List Trie) (body : List Ev)
+    (hb : ∀ st : State, 0 < st.safeCalls → exec roots st body = st) (st : State) (h : st.safeCalls = 0) :
+    exec roots st ([.enterSafeCall] ++ body ++ [.leave .safeCall]) = st.finish := by
+  rw [exec_append, exec_append]
+  simp only [exec_cons, exec_nil]
+  rw [hb _ (by simp [State.step])]
+  simp [State.step, h, finish_eq]
 
 theorem leaveOf_safe (lower : String → String) (e : E) (h : isSafeE lower e = true) :
     enterOf lower e = [.enterSafeCall] ∧ leaveOf lower e = .safeCall := by
@@ -235,7 +213,7 @@ theorem silent_all (roots : List Trie) (env : Env) (e : E) :
       rw [h1, exec_append, List.nil_append, hb st h]
       simp [step_silent _ _ _ h h2]
     · obtain ⟨h1, h2⟩ := leaveOf_safe _ _ hs
-      rw [h1, h2]; exact exec_safe_bracket roots _ hb st
+      rw [h1, h2]; exact exec_safe_bracket roots _ hb st h
   case case10 =>
     intro e ih st h
     rw [evs_not, exec_append, ih st h]; simp [step_silent _ _ _ h]
@@ -276,16 +254,16 @@ theorem silent_args (roots : List Trie) (env : Env) (args : List E) :
     intro st h
     rw [evs_args_cons, exec_append, silent_all roots env a st h, ih st h]
 
-/-- A contains/startsWith/endsWith call is transparent for the machine: whatever state it is entered
-in (cursor, filter flag, reports, nesting depth) is the state it is left in. -/
-theorem transp_safe (roots : List Trie) (env : Env) (e : E) (hs : isSafeE env.lower e = true) (st : State) :
-    exec roots st (check env e).evs = st := by
+/-- A contains/startsWith/endsWith call entered outside any safe call acts on the machine exactly
+like `end()`: nothing inside it is seen, and the chain pending before it is ended. -/
+theorem safe_finish (roots : List Trie) (env : Env) (e : E) (hs : isSafeE env.lower e = true) (st : State)
+    (h : st.safeCalls = 0) : exec roots st (check env e).evs = st.finish := by
   cases e with
   | call c args =>
     rw [evs_call]
     obtain ⟨h1, h2⟩ := leaveOf_safe _ _ hs
     rw [h1, h2]
-    apply exec_safe_bracket
+    apply exec_safe_top _ _ _ _ h
     intro st h; split
     · rfl
     · exact silent_args roots env args st h
